@@ -74,6 +74,12 @@ class MonCache(_ka.cache):
         return dict.popitem(self)
 
 
+# the recorded dir_archive name aliasing makes one key's entry answer for / overwrite another's (wrong value,
+# recomputation, entry missing); it never makes a call or a management operation raise - that is something else
+NOT_AN_ALIAS_SYMPTOM = ('call-raised', 'safe-not-degraded', 'management-op-raised', 'exception-not-propagated',
+                        'safe-decorator-failed-after-unkeyable-call')
+
+
 def effective_algo(cfg):
     a = cfg['algo']
     if a in BOUNDED:
@@ -195,6 +201,8 @@ class Runner(object):
         if cfg.get('tol') is not None:
             kw['tol'] = cfg['tol']
             kw['deep'] = bool(cfg.get('deep'))
+        elif cfg.get('deep'):
+            kw['deep'] = True          # deep rounding requested, no tolerance: nothing is rounded
         args = ()
         if cfg['algo'] in BOUNDED:
             kw['purge'] = bool(cfg['purge'])
@@ -262,7 +270,7 @@ class Runner(object):
 
     def violation(self, prop, kind, msg, mech=(), keys=(), **kw):
         mech = list(mech)
-        for k in keys:
+        for k in (keys if kind not in NOT_AN_ALIAS_SYMPTOM else ()):
             p = self.alias_partner(k)
             if p is not None:
                 mech.append('dir-fname-alias')
@@ -999,6 +1007,8 @@ def gen_case(rng, focus, nops=None):
     universe = list(gen.UNIVERSE)
     if focus == 'C18':
         universe += [2.54, 2.51, 0.12345, 1.005]
+        if cfg.get('deep'):
+            universe += [(2.54, 'a'), (2.51, 'a'), (1, (0.12345, 2))]
     if km['typed'] and focus in ('C01', 'C02', 'C15') and gen.result_mode(b) == 'tuple' and rng.random() < 0.6:
         # typed keys promise separate entries for ==-equal values of different type; results are then
         # compared type-strictly (repr), so a typed keymap that merges 1 / 1.0 / True shows as a wrong result
@@ -1014,6 +1024,17 @@ def gen_case(rng, focus, nops=None):
         c = gen.gen_call(rng, sig, universe)
         if c not in pool:
             pool.append(c)
+    if gen.sig_has_varargs(sig) and len(pool) >= 2 and rng.random() < 0.3:
+        # a call whose positionals are those of two other calls put together (raw keys: a tuple whose elements are
+        # themselves keys of the cache)
+        a, b2 = rng.sample(pool, 2)
+        comp = (list(a[0]) + list(b2[0]), dict(a[1]))
+        try:
+            gen.Probe(sig).raw(*comp[0], **comp[1])
+            if comp not in pool:
+                pool.append(comp)
+        except TypeError:
+            pass
     if km['typed'] and 1.0 in universe:
         # type-swapped twins: the same call with ==-equal values of another type, keywords in another order
         named = [n for kd, n in gen.sig_names(sig) if kd == 'pos']
@@ -1420,6 +1441,8 @@ def gen_case_c20(rng):
            'keymap': km, 'backend': b}
     if rng.random() < 0.3:
         cfg['tol'] = rng.choice([0, 1]); cfg['deep'] = rng.random() < 0.5
+    elif rng.random() < 0.15:
+        cfg['deep'] = True
     names = [n for kd, n in gen.sig_names(sig) if kd == 'pos']
     if names and rng.random() < 0.25 and gen.backend_accepts(b, gen.key_kind(km), dict(km, sentinel=True)):
         cfg['ignore'] = enc([rng.choice(names)])    # klepto's NULL marker object sits inside raw keys
